@@ -145,7 +145,7 @@ def run_shard(params):
     k = params["k"]
     start, err, target = params["start"], params["err"], params["target"]
     for lats in itertools.product(range(k + 1), repeat=3):
-        for acklat in (range(k + 1) if err else [0]):
+        for acklat in (range(k + 2) if err else [0]):
             for errpoll in [None, 2, 3, 4, 5, 6, 7]:
                 evs, out, t = run_one(start, err, target, lats, acklat,
                                       errpoll)
